@@ -8,11 +8,28 @@ import (
 	"testing"
 	"time"
 
+	"example.com/scion-time/base/timebase"
 	"example.com/scion-time/core/sync/adjustments"
+	"example.com/scion-time/driver/clocks"
 
 	"verif.local/sim/simclock"
 	"verif.local/sim/simcore"
+	"verif.local/sim/simkern"
 )
+
+// c19Rec passes everything through to the real system clock driver and records the
+// Step and Adjust calls the discipline makes.
+type c19Rec struct {
+	timebase.SystemClock
+	onStep   func(d time.Duration)
+	onAdjust func(o, d time.Duration, f float64)
+}
+
+func (c *c19Rec) Step(d time.Duration) { c.onStep(d); c.SystemClock.Step(d) }
+func (c *c19Rec) Adjust(o, d time.Duration, f float64) {
+	c.onAdjust(o, d, f)
+	c.SystemClock.Adjust(o, d, f)
+}
 
 // W-pll: the real Pll on a simulated SystemClock that records Step and Adjust,
 // bumps its epoch on Step, and is additionally stepped from outside at
@@ -36,7 +53,23 @@ func c19World(t *testing.T, r *simcore.Run) any {
 	clk.OnAdjust = func(o, d time.Duration, f float64) {
 		calls = append(calls, c19Call{kind: "adjust", off: o, dur: d, freq: f, update: upd})
 	}
-	pll := adjustments.NewPLL(quietLog(), clk)
+	// In a third of the runs the discipline drives the repository's real system clock driver
+	// (driver/clocks) on a simulated kernel (clock_gettime / clock_adjtime / timerfd): epoch,
+	// clock readings and the goroutine that ends a slew are then the driver's own.
+	realDriver := tp.Bool(1, 3, "realdriver")
+	var sys timebase.SystemClock = clk
+	var kern *simkern.KClock
+	if realDriver {
+		kern = simkern.New(r, nil, clk, tp.Range(0, 100000, "hwppb")-50000)
+		simkern.Current = kern
+		sys = &c19Rec{SystemClock: clocks.NewSystemClock(quietLog(), 10*time.Microsecond),
+			onStep: func(d time.Duration) { calls = append(calls, c19Call{kind: "step", off: d, update: upd}) },
+			onAdjust: func(o, d time.Duration, f float64) {
+				calls = append(calls, c19Call{kind: "adjust", off: o, dur: d, freq: f, update: upd})
+			}}
+		r.Probe("real-clock-driver")
+	}
+	pll := adjustments.NewPLL(quietLog(), sys)
 
 	n := 5 + tp.Intn(60, "updates")
 	gapKinds := []time.Duration{0, 1, time.Millisecond, 999 * time.Millisecond, time.Second, time.Second + 1,
@@ -55,107 +88,153 @@ func c19World(t *testing.T, r *simcore.Run) any {
 	var m mstate
 	steps, adjusts, extSteps, restarts := 0, 0, 0, 0
 	var hist []string
-	for k := 0; k < n && r.Violation() == nil; k++ {
-		upd = k
-		var gap time.Duration
-		switch regime {
-		case 1:
-			gap = time.Second
-		case 2:
-			gap = []time.Duration{0, 0, 0, time.Second, 3 * time.Second}[tp.Intn(5, "gapb")]
-		case 3:
-			gap = gapKinds[8+tp.Intn(len(gapKinds)-8, "gaps")]
-		default:
-			gap = gapKinds[tp.Intn(len(gapKinds), "gap")]
-			if tp.Bool(1, 5, "gapj") {
-				gap += time.Duration(tp.Range(0, int64(time.Second), "gapjj"))
+	body := func(sleep func(k int, d time.Duration) bool) {
+		for k := 0; k < n && r.Violation() == nil; k++ {
+			upd = k
+			var gap time.Duration
+			switch regime {
+			case 1:
+				gap = time.Second
+			case 2:
+				gap = []time.Duration{0, 0, 0, time.Second, 3 * time.Second}[tp.Intn(5, "gapb")]
+			case 3:
+				gap = gapKinds[8+tp.Intn(len(gapKinds)-8, "gaps")]
+			default:
+				gap = gapKinds[tp.Intn(len(gapKinds), "gap")]
+				if tp.Bool(1, 5, "gapj") {
+					gap += time.Duration(tp.Range(0, int64(time.Second), "gapjj"))
+				}
 			}
-		}
-		time.Sleep(gap)
-		if tp.Bool(1, 15, "extstep") {
-			// someone else steps the clock (forward): new epoch
-			clk.StepBy(time.Duration(tp.Range(0, int64(10*time.Second), "extby")))
-			extSteps++
-			r.Fault("external-clock-step")
-		}
-		var off time.Duration
-		switch tp.Intn(10, "offk") {
-		case 0:
-			off = 0
-		case 1:
-			off = time.Millisecond
-		case 2:
-			off = time.Millisecond + 1
-		case 3:
-			off = time.Duration(tp.Range(0, int64(2*time.Millisecond), "offs"))
-		case 4:
-			off = time.Duration(tp.Range(0, int64(time.Second), "offm"))
-		case 5:
-			off = math.MaxInt64
-		case 6:
-			off = time.Duration(tp.Range(0, math.MaxInt64-1, "offh"))
-		default:
-			off = time.Duration(tp.Range(0, int64(300*time.Microsecond), "offt"))
-		}
-		if tp.Bool(1, 2, "neg") {
-			off = -off
-		}
-		weight := []float64{0, 1, 3, 3.0000001, 4, 49, 50, 100, 149, 150, 1000, 1e6}[tp.Intn(12, "w")]
+			if !sleep(k, gap) {
+				return
+			}
+			if tp.Bool(1, 15, "extstep") {
+				// someone else steps the clock (forward): new epoch
+				by := time.Duration(tp.Range(0, int64(10*time.Second), "extby"))
+				if realDriver {
+					sys.(*c19Rec).SystemClock.Step(by) // another user of the same driver object
+				} else {
+					clk.StepBy(by)
+				}
+				extSteps++
+				r.Fault("external-clock-step")
+			}
+			var off time.Duration
+			switch tp.Intn(10, "offk") {
+			case 0:
+				off = 0
+			case 1:
+				off = time.Millisecond
+			case 2:
+				off = time.Millisecond + 1
+			case 3:
+				off = time.Duration(tp.Range(0, int64(2*time.Millisecond), "offs"))
+			case 4:
+				off = time.Duration(tp.Range(0, int64(time.Second), "offm"))
+			case 5:
+				off = math.MaxInt64
+				if realDriver {
+					off = time.Duration(math.MaxInt32) * time.Second / 4 // the kernel refuses offsets beyond its range
+				}
+			case 6:
+				off = time.Duration(tp.Range(0, math.MaxInt64-1, "offh"))
+				if realDriver {
+					off %= time.Duration(math.MaxInt32) * time.Second / 4
+				}
+			default:
+				off = time.Duration(tp.Range(0, int64(300*time.Microsecond), "offt"))
+			}
+			if tp.Bool(1, 2, "neg") {
+				off = -off
+			}
+			weight := []float64{0, 1, 3, 3.0000001, 4, 49, 50, 100, 149, 150, 1000, 1e6}[tp.Intn(12, "w")]
 
-		now := clk.Now()
-		if ep := clk.Epoch(); !m.have || ep != m.epoch {
-			if m.have {
-				restarts++
-				r.Probe("epoch-restart")
+			now := sys.Now()
+			if ep := sys.Epoch(); !m.have || ep != m.epoch {
+				if m.have {
+					restarts++
+					r.Probe("epoch-restart")
+				}
+				m = mstate{epochStart: now, have: true, epoch: ep}
 			}
-			m = mstate{epochStart: now, have: true, epoch: ep}
-		}
-		before := len(calls)
-		pll.Do(off, weight)
-		sinceStart := now.Sub(m.epochStart)
-		var dtWhole float64
-		if m.haveLast {
-			dtWhole = math.Ceil(now.Sub(m.lastUpdate).Seconds())
-		}
-		for _, c := range calls[before:] {
-			switch c.kind {
-			case "step":
-				steps++
-				ok := !m.decided && sinceStart > 2*time.Second && weight > 3 && (off > time.Millisecond || off < -time.Millisecond)
-				if !ok {
-					r.Fail("C19", "step/not-allowed", "update %d: Step(%v) with %v since the epoch's first update, weight %v, offset %v, initial step already decided: %v",
-						k, c.off, sinceStart, weight, off, m.decided)
-				} else if c.off != off {
-					r.Fail("C19", "step/amount", "update %d: Step(%v) for measured offset %v", k, c.off, off)
-				}
-				r.Probe("step")
-			case "adjust":
-				adjusts++
-				if c.dur <= 0 {
-					r.Fail("C19", "adjust/duration", "update %d: Adjust with duration %v", k, c.dur)
-				} else if math.IsNaN(c.freq) || math.IsInf(c.freq, 0) {
-					r.Fail("C19", "adjust/frequency", "update %d: Adjust with frequency %v", k, c.freq)
-				} else if lim := 500e-6 * dtWhole * 1e9; math.Abs(float64(c.off)) > lim+1 {
-					r.Fail("C19", "adjust/slew-bound", "update %d: Adjust(%v over %v): more than 500 ppm of the %v whole second(s) elapsed since the previous update",
-						k, c.off, c.dur, dtWhole)
-				}
-				if c.off != 0 {
-					r.Probe("adjust-nonzero")
-				}
-				r.Probe("adjust")
+			before := len(calls)
+			pll.Do(off, weight)
+			sinceStart := now.Sub(m.epochStart)
+			var dtWhole float64
+			if m.haveLast {
+				dtWhole = math.Ceil(now.Sub(m.lastUpdate).Seconds())
 			}
+			for _, c := range calls[before:] {
+				switch c.kind {
+				case "step":
+					steps++
+					ok := !m.decided && sinceStart > 2*time.Second && weight > 3 && (off > time.Millisecond || off < -time.Millisecond)
+					if !ok {
+						r.Fail("C19", "step/not-allowed", "update %d: Step(%v) with %v since the epoch's first update, weight %v, offset %v, initial step already decided: %v",
+							k, c.off, sinceStart, weight, off, m.decided)
+					} else if c.off != off {
+						r.Fail("C19", "step/amount", "update %d: Step(%v) for measured offset %v", k, c.off, off)
+					}
+					r.Probe("step")
+				case "adjust":
+					adjusts++
+					if c.dur <= 0 {
+						r.Fail("C19", "adjust/duration", "update %d: Adjust with duration %v", k, c.dur)
+					} else if math.IsNaN(c.freq) || math.IsInf(c.freq, 0) {
+						r.Fail("C19", "adjust/frequency", "update %d: Adjust with frequency %v", k, c.freq)
+					} else if lim := 500e-6 * dtWhole * 1e9; math.Abs(float64(c.off)) > lim+1 {
+						r.Fail("C19", "adjust/slew-bound", "update %d: Adjust(%v over %v): more than 500 ppm of the %v whole second(s) elapsed since the previous update",
+							k, c.off, c.dur, dtWhole)
+					}
+					if c.off != 0 {
+						r.Probe("adjust-nonzero")
+					}
+					r.Probe("adjust")
+				}
+			}
+			// the waiting phase of this epoch ends with the first update that satisfies the
+			// time and weight conditions (with or without a step)
+			if !m.decided && sinceStart > 2*time.Second && weight > 3 {
+				m.decided = true
+				r.Probe("initial-step-decision")
+			}
+			m.lastUpdate, m.haveLast = now, true
+			if len(hist) < 14 {
+				hist = append(hist, fmt.Sprintf("+%v off=%v w=%v -> %d call(s)", gap, off, weight, len(calls)-before))
+			}
+			r.Log("upd %d gap=%d off=%d w=%v calls=%d", k, gap, off, weight, len(calls)-before)
 		}
-		// the waiting phase of this epoch ends with the first update that satisfies the
-		// time and weight conditions (with or without a step)
-		if !m.decided && sinceStart > 2*time.Second && weight > 3 {
-			m.decided = true
-			r.Probe("initial-step-decision")
+	}
+	if realDriver {
+		go func() {
+			simcore.SetTag("driver")
+			defer r.Finish()
+			defer func() {
+				if p := recover(); p != nil {
+					st := string(debugStack())
+					r.Fail("panic", simcore.SiteFromStack(st)+":"+simcore.PanicClass(p), "%v\n%s", p, st)
+				}
+			}()
+			body(func(k int, d time.Duration) bool { return !r.Sleep(fmt.Sprintf("gap:%d", k), nil, d).Killed })
+		}()
+		if reason := r.Loop(2_000_000, 0); reason != "" && r.Violation() == nil {
+			r.Fail("harness", "c19/"+reason, "scheduler stopped: %s pending=%v", reason, r.IdlePending)
 		}
-		m.lastUpdate, m.haveLast = now, true
-		if len(hist) < 14 {
-			hist = append(hist, fmt.Sprintf("+%v off=%v w=%v -> %d call(s)", gap, off, weight, len(calls)-before))
+		r.SetVT()
+		r.Drain()
+		simkern.Current = nil
+		r.Count("kernel-frequency-settings", int64(len(kern.Freqs)))
+		if len(kern.Freqs) > 0 {
+			r.Probe("kernel-frequency-set")
 		}
-		r.Log("upd %d gap=%d off=%d w=%v calls=%d", k, gap, off, weight, len(calls)-before)
+		if len(kern.Offsets) > 0 {
+			r.Probe("kernel-clock-stepped")
+		}
+		if len(kern.Freqs) > adjusts {
+			r.Probe("slew-ended-by-driver")
+		}
+	} else {
+		body(func(k int, d time.Duration) bool { time.Sleep(d); return true })
 	}
 	r.SetVT()
 	r.Count("updates", int64(n))
